@@ -148,6 +148,14 @@ def build_project(strings, root, dumpdir):
         name = 'ct_envonly_%d' % ci
         L.append("custom_target('%s', output: '%s.out', command: [dump, '--dump=%s', '--env=CE0'], env: {'CE0': %s})" % (name, name, dp(name), lit(ch[0])))
         plan.append(('ct', name, [], dp(name), {'mode': 'envonly', 'nenv': 1, 'envvals': ch}))
+    # option-like arguments, each in its own command so that no earlier '--' shields it from a wrapper's option parser
+    for oi, o in enumerate(['--capture', '--feed', '--unpickle', '-h', '--help', '--', '--cap', '--fe', '-c', '--internal']):
+        for mode in ('plain', 'capture', 'feed'):
+            name = 'ct_opt_%s_%d' % (mode, oi)
+            first = "'--dump=%s', " % dp(name) if mode != 'capture' else ''
+            kw = {'plain': '', 'capture': ', capture: true', 'feed': ", feed: true, input: 'in.txt'"}[mode]
+            L.append("custom_target('%s', output: '%s.out', command: [dump, %s%s, 'zz', %s, 'yy']%s)" % (name, name, first, lit(o), lit(o), kw))
+            plan.append(('ct', name, [o, 'zz', o, 'yy'], dp(name) if mode != 'capture' else None, {'mode': mode, 'nenv': 0}))
     # exact && separates commands: both halves observed
     for mode in ('plain', 'capture'):
         name = 'ct_andand_' + mode
